@@ -1,32 +1,42 @@
 #!/usr/bin/env python3
 # Generates config.json for C11 (instance grids per tier).
-import json, itertools
+import json
 scale=[]
 for mdo in (3,4,5,8):
     scale += [{"set":"m%d"%mdo,"file":"wsync/algo.go","ident":"MaxDataOp","value":str(mdo)},
               {"set":"m%d"%mdo,"file":"wsync/algo.go","ident":"minBufferSize","func":"ApplySingleFull","value":"4"}]
-def sets(bs_list, olds, news, prefs, alpha, total_old_max):
+def sets(bs_list, olds, news, prefs, alpha=0):
     out=[]
     for bs in bs_list:
         for o in olds:
-            if sum(x for x in o if x>0) > total_old_max: continue
             nf=sum(1 for x in o if x>=0)
             for nn in news:
                 for pref in prefs:
                     if pref >= nf: continue
                     out.append({"bs":bs,"n0":o[0],"n1":o[1],"n2":o[2],"nnew":nn,"pref":pref,"alpha":alpha})
     return out
+one=lambda r:[(n,-1,-1) for n in r]
+two=lambda r,tot:[(a,b,-1) for a in r for b in r if a+b<=tot]
+three=lambda r,tot:[(a,b,c) for a in r for b in r for c in r if a+b+c<=tot]
 H=[]
 H.append({"name":"H_witness","tiers":["quick","thorough"],"expect":"violation","bounds":"vacuity witness (must be violated)"})
-# quick: one old file 0..4, new 0..5, bs 2..3, all bytes; two old files small
-one=[(n,-1,-1) for n in range(0,5)]
-two=[(a,b,-1) for a in range(0,3) for b in range(0,3)]
-H.append({"name":"H_ops","tiers":["quick","thorough"],"scale":"m8","bounds":"bs 2..3, one old file 0..4 bytes or two of 0..2, new 0..5, all 256 byte values, pref -1..nf-1, MaxDataOp=8",
-  "param_sets": sets([2,3], one, range(0,6), [-1,0], 0, 4) + sets([2], two, range(0,5), [-1,0,1], 0, 4)})
-H.append({"name":"H_ops","tiers":["quick","thorough"],"scale":"m3","bounds":"bs 1..2, one old file 0..3, new 0..6, MaxDataOp=3 (data-op splitting, buffer wrap)",
-  "param_sets": sets([2], [(n,-1,-1) for n in range(0,4)], range(0,7), [-1], 0, 4)+sets([1], [(n,-1,-1) for n in range(0,3)], range(0,5), [-1], 0, 4)})
+Q=["quick","thorough"]
+H.append({"name":"H_ops","tiers":Q,"scale":"m8","bounds":"MaxDataOp=8; bs 2..4; one old file 0..4 bytes x new 0..6; two old files 0..2 each x new 0..4; all 256 byte values; every preferred index",
+  "param_sets": sets([2,3,4], one(range(0,5)), range(0,7), [-1,0]) + sets([2,3], two(range(0,3),4), range(0,5), [-1,0,1])})
+H.append({"name":"H_ops","tiers":Q,"scale":"m3","bounds":"MaxDataOp=3 (data-op splitting and buffer wrap-around inside tiny inputs); bs 1: old 0..1, new 0..6; bs 2: old 0..3, new 0..7",
+  "param_sets": sets([2], one(range(0,4)), range(0,8), [-1]) + sets([1], one(range(0,2)), range(0,7), [-1])})
+H.append({"name":"H_ops","tiers":Q,"scale":"m4","bounds":"MaxDataOp=4; bs 1: old 0..1, new 4..7 (buffer of exactly 2*bs+MaxDataOp bytes); bs 3: old 0..3, new 6..8",
+  "param_sets": sets([1], one(range(0,2)), range(4,8), [-1]) + sets([3], one(range(0,4)), range(6,9), [-1])})
+T=["thorough"]
+H.append({"name":"H_ops","tiers":T,"scale":"m8","bounds":"MaxDataOp=8; bs 1..4; one old file 0..7 x new 0..7 (bs 1: old 0..4, new 0..5); two old files total <=6 x new 0..5 (bs>=2); three old files total <=4 x new 0..4 (bs>=2)","max_seconds":600,
+  "param_sets": sets([2,3,4], one(range(5,8)), range(0,8), [-1,0]) + sets([2,3,4], one(range(0,5)), range(7,8), [-1,0]) + sets([1], one(range(0,5)), range(0,6), [-1,0])
+               + sets([2,3,4], two(range(0,5),6), range(0,6), [-1,1]) + sets([2,3], three(range(0,3),4), range(0,5), [-1,2])})
+H.append({"name":"H_ops","tiers":T,"scale":"m5","bounds":"MaxDataOp=5; bs 2..3; old 0..4; new 5..9","max_seconds":600,
+  "param_sets": sets([2,3], one(range(0,5)), range(5,10), [-1])})
+H.append({"name":"H_ops","tiers":T,"scale":"m3","bounds":"small alphabet {0,1,2} (the property's literal bound): bs 2..3, two old files 0..4 each, new 0..8","max_seconds":600,
+  "param_sets": sets([2,3], two(range(0,5),7), range(5,9), [-1], alpha=3)})
 json.dump({"property":"C11","package":"c11","scale":scale,"harnesses":H,
- "stubs":["crypto/md5 -> injective model (content + length)","context.Background -> model context"],
- "outside":["block sizes and lengths beyond the listed grids","real 4 MiB MaxDataOp (scaled to 3..8 by overlay of the constant's declared value)"]},
+ "stubs":["crypto/md5 -> injective model (content + length), so strong-hash collisions are excluded","context.Background -> model context"],
+ "outside":["block sizes, file counts and lengths beyond the listed grids","the real 4 MiB MaxDataOp (its declared value is scaled to 3..8 by an overlay; every use is the real code)","new content > 8 MiB at 64 KiB blocks (the property's random regime) is not run symbolically"]},
  open("config.json","w"),indent=1)
-print(sum(len(h.get("param_sets",[1])) for h in H),"instances")
+for h in H: print(h["name"],h["tiers"],h.get("scale"),len(h.get("param_sets",[1])))
